@@ -28,6 +28,17 @@ type SessionState struct {
 	createdAt        time.Time           // Session创建时间
 }
 
+// clone 返回会话状态的独立副本（主密钥为新的拷贝），
+// 使得对其中一个对象主密钥的清零不会影响另一个对象。
+func (s *SessionState) clone() *SessionState {
+	cp := *s
+	if s.masterSecret != nil {
+		cp.masterSecret = make([]byte, len(s.masterSecret))
+		copy(cp.masterSecret, s.masterSecret)
+	}
+	return &cp
+}
+
 // SessionCache 会话缓存器接口，用于存储和检索会话状态。
 // 实现必须支持多 goroutine 并发访问。
 //
